@@ -2,10 +2,11 @@ import Driver.Util
 import Driver.C14Util
 import AslModel.Model.Isa.IAvr
 /-! Driver mode `c14`, target `avr` (protocol: `Driver/C14.lean`).  CPU index = index into `Spec.IAvr.devices`, + 8 for
-`WRAPMODE ON`.  Besides the common fields the answer carries `cls=<class>` when the statement falls into one of the two
+`WRAPMODE ON`, + 16 for `cpu <device>:codesegsize=0` (program counter and code-address operands of the request are then byte addresses).  Besides the common fields the answer carries `cls=<class>` when the statement falls into one of the two
 classes of deviations recorded as known findings (so that the harness can tell them from any other failure):
 `size-gated` - an instruction that only devices with more program memory have was assembled, with the right opcode;
-`pbit-trunc` - `CBI/SBI/SBIC/SBIS` with an address ≥ 512 was assembled to the address modulo 512. -/
+`pbit-trunc` - `CBI/SBI/SBIC/SBIS` with an address ≥ 512 was assembled to the address modulo 512;
+`wrap-byte` - byte-addressed code space and `WRAPMODE ON`: a relative branch around the end of the program memory was refused. -/
 namespace Driver.C14
 open AslModel AslModel.Isa
 
@@ -13,26 +14,35 @@ def sizeGated (m : Spec.IAvr.Mn) : Bool := Spec.IAvr.minPcBits m != 0
 
 def hAvr (cpu pc : Nat) (mn : String) (args : List Int) (real : String) : String :=
   open Spec.IAvr in
-  match Mn.all.find? (fun m => m.name == mn), cpuOf cpu, (devices[cpu % 8]?).bind (fun d => Isa.IAvr.propsOf d.1) with
+  let byte := cpu / 16 == 1
+  let ci := cpu % 16
+  match Mn.all.find? (fun m => m.name == mn), cpuOf ci, (devices[ci % 8]?).bind (fun d => Isa.IAvr.propsOf d.1) with
   | some m, some c, some p =>
     let s : Src := ⟨m, args⟩
-    let model := Isa.IAvr.encode ⟨p, c.wrap, pc⟩ s
-    let isLegal := legal c pc s
+    let model := Isa.IAvr.encodeA ⟨⟨p, c.wrap, pc⟩, if byte then 0 else 1⟩ s
+    -- SPEC side: word addresses.  Byte mode: the statement with halved code address, at word `pc / 2`
+    let pcw := if byte then pc / 2 else pc
+    let sw : Option Src := if byte then wordStmt s else some s
+    let legalAt (c : Cpu) : Bool := match sw with | some s' => legal c pcw s' | none => false
+    let isLegal := legalAt c
+    let decOk (bs : List UInt8) : Bool := match sw with | some s' => decode c pcw bs == some (meaning s', bs.length) | none => false
     let cls :=
-      match unhex real with
+      if real.startsWith "E" then
+        -- `WRAPMODE ON` with byte addresses: a branch that is legal only around the end of the program memory was refused
+        if byte && c.wrap && isLegal && !legalAt { c with wrap := false } then " cls=wrap-byte" else ""
+      else match unhex real with
       | some bs =>
-        if real.startsWith "E" || isLegal then ""
-        else if sizeGated m && legal ⟨3, 17, c.wrap⟩ pc s && decode c pc bs == some (meaning s, bs.length) then " cls=size-gated"
+        if isLegal then ""
+        else if sizeGated m && legalAt ⟨3, 17, c.wrap⟩ && decOk bs then " cls=size-gated"
         else match args with
           | [a, bit] =>
-            if (form m).name == "ioBit" && decide (512 ≤ a) && legal c pc ⟨m, [a % 512, bit]⟩ &&
-               decode c pc bs == some (meaning ⟨m, [a % 512, bit]⟩, bs.length)
+            if (form m).name == "ioBit" && decide (512 ≤ a) && legal c pcw ⟨m, [a % 512, bit]⟩ &&
+               decode c pcw bs == some (meaning ⟨m, [a % 512, bit]⟩, bs.length)
             then " cls=pbit-trunc" else ""
           | _ => ""
       | none => ""
-    answer isLegal model real
-      (fun bs => decode c pc bs == some (meaning s, bs.length))
-      (fun bs => match decode c pc bs with
+    answer isLegal model real decOk
+      (fun bs => match decode c pcw bs with
         | some (i, n) => (s!"{i.mn.name}{i.args}/{n}").replace " " ""
         | none => "undecodable") ++ cls
   | none, _, _ => "bad-mnemonic"
